@@ -68,6 +68,14 @@ MIntegrate(a, h) ==         \* integral over the box [0,h_1] x .. x [0,h_DIM]
              Add(acc, Mul(a[k], FoldLeft(LAMBDA pr, c : Mul(pr, Div(PowR(R(h[c]), e[c] + 1), R(e[c] + 1))), One, Ints(DIM)))),
            Zero, Ints(MSize))
 
+MIntegrateBd(a, h, c0, side) ==    \* integral over the face t_c0 = 0 (side 0) or t_c0 = h_c0 (side 1) of the box
+  FoldLeft(LAMBDA acc, k : IF IsZero(a[k]) THEN acc ELSE
+             LET e == MExps[k] IN
+             Add(acc, Mul(a[k], FoldLeft(LAMBDA pr, c :
+                                   IF c = c0 THEN (IF side = 0 THEN (IF e[c] = 0 THEN pr ELSE Zero) ELSE Mul(pr, PowR(R(h[c]), e[c])))
+                                   ELSE Mul(pr, Div(PowR(R(h[c]), e[c] + 1), R(e[c] + 1))), One, Ints(DIM)))),
+           Zero, Ints(MSize))
+
 NoFn(f, x) == Assert(FALSE, "builtin function in the polynomial fragment")
 AB == INSTANCE VFormAbs WITH FAdd <- MAdd, FSub <- MSub, FMul <- MMul, FDiv <- MDiv, FNeg <- MNeg, FFn <- NoFn,
                             FZero <- MConst(Zero), FOne <- MConst(One), FTwo <- MConst(R(2))
@@ -106,6 +114,17 @@ EvalCase(cs) ==
       K(c)   == MConst(c)
       KVec(v) == Tab(Len(v), LAMBDA q : K(v[q]))
       KMat(m) == Tab(Len(m), LAMBDA r : KVec(m[r]))
+      (* boundary integrals (2-D): face  xi_bax = first / last breakpoint.  In x-first parameter order the fixed
+         parameter has index bc; the tangent of the face is  t = J * Jac_to_boundary  with the sign conventions of
+         assemble._Jac_to_boundary_matrix, the surface weight is |t| (passed in as cs.tnorm and checked), the unit
+         normal is (-t_2, t_1) / |t|. *)
+      bax == cs.bax   bside == cs.bside
+      bc  == d + 1 - bax                                  \* x-first coordinate index of the fixed parameter
+      tang == IF bax = 0 THEN <<Zero, Zero>>
+              ELSE IF bc = 1 THEN (IF bside = 0 THEN <<A[1][2], A[2][2]>> ELSE <<Neg(A[1][2]), Neg(A[2][2])>>)
+              ELSE (IF bside = 0 THEN <<Neg(A[1][1]), Neg(A[2][1])>> ELSE <<A[1][1], A[2][1]>>)
+      tn  == RQ(cs.tnorm)
+      tnOK == bax = 0 \/ (Mul(tn, tn) = Add(Mul(tang[1], tang[1]), Mul(tang[2], tang[2])) /\ Sign(tn) = 1)
       ncu == cs.ncu   ncv == cs.ncv                     \* components of the trial / test functions (blocked layout:
       nU  == ShapeSize(shape)   nV == ShapeSize(shapeV)          \* flat index = component * (number of functions) + function)
       CellVal(cell, I, J, cu, cv) ==  \* cell: 0-based cell index per AXIS; polynomial integrand integrated over the cell
@@ -156,10 +175,12 @@ EvalCase(cs) ==
                        [] t = "u0" -> UVec[1]  [] t = "u1" -> UVec[2]  [] t = "w0" -> VVec[1]  [] t = "w1" -> VVec[2]
                        [] t = "Gu" -> UJac  [] t = "Gv" -> VJac
                        [] t = "divu" -> MSum(Tab(d, LAMBDA q : UJac[q][q]))  [] t = "divv" -> MSum(Tab(d, LAMBDA q : VJac[q][q]))
+                       [] t = "nrm" -> KVec(<<Div(Neg(tang[2]), tn), Div(tang[1], tn)>>)
                        [] t = "B" -> KMat(RMat(fl.B))
                        [] t = "A" -> KMat(AF)  [] t = "J" -> KMat(A)  [] t = "Ainv" -> KMat(AFI)  [] t = "Jinv" -> KMat(JI)
                        [] OTHER -> K(Zero)]
-        IN MIntegrate(AB!AbsEval(cs.tokens, lv), h)
+        IN IF bax = 0 THEN MIntegrate(AB!AbsEval(cs.tokens, lv), h)
+           ELSE MIntegrateBd(AB!AbsEval(cs.tokens, lv), h, bc, bside)
       Active(a, mi, c) == LET f == pieces[a][c + 1].first IN mi >= f /\ mi <= f + ps[a]     \* B-spline mi lives on cell c
       ActiveV(a, mi, c) == LET f == piecesV[a][c + 1].first IN mi >= f /\ mi <= f + psV[a]
       Entry(pr) ==
@@ -167,9 +188,11 @@ EvalCase(cs) ==
             cu == IF cs.bilinear THEN pr[2] \div nU ELSE 0   J == IF cs.bilinear THEN pr[2] % nU ELSE 0
             mI == UnravelC(I, shapeV)
             cells == SelectSeq(MultiIndices(ncell),
-                               LAMBDA c : \A a \in 1..d : /\ ActiveV(a, mI[a], c[a])
+                               LAMBDA c : \A a \in 1..d : /\ (a = bax => c[a] = (IF bside = 0 THEN 0 ELSE ncell[a] - 1))
+                                                          /\ ActiveV(a, mI[a], c[a])
                                                           /\ cs.bilinear => Active(a, UnravelC(J, shape)[a], c[a]))
-        IN Mul(absdet, FoldLeft(LAMBDA acc, c : Add(acc, CellVal(c, I, J, cu, cv)), Zero, cells))
+        IN Mul(IF bax = 0 THEN absdet ELSE IF tnOK THEN tn ELSE Assert(FALSE, "tnorm is not the length of the tangent"),
+               FoldLeft(LAMBDA acc, c : Add(acc, CellVal(c, I, J, cu, cv)), Zero, cells))
   IN Tab(Len(cs.pairs), LAMBDA q : Entry(cs.pairs[q]))
 
 VARIABLE k
